@@ -12,7 +12,7 @@ from checks import c05 as C05
 from checks import c06 as C06
 from vlib import codec_gen as G
 from vlib.hyp import run_given
-from vlib.reffix import ref_check_frame, ref_get, ref_parse
+from vlib.reffix import reassemble, ref_check_frame, ref_get, ref_parse
 from vlib.runner import Acc, derive_seed
 from vlib.sess import Bench
 
@@ -89,7 +89,7 @@ def judge_send(acc, sb, role, case, nonascii):
     def bad(sig, detail):
         acc.violation(f"C02:{sig}", detail + f" | type={case['msgtype']} {tag}", dict(case, role=role, nonascii=nonascii))
 
-    frames = [x for _, x in w.written[w0:]]
+    frames = reassemble([x for _, x in w.written[w0:]])
     for fr in frames:
         why = ref_check_frame(fr)
         if why:
@@ -206,7 +206,7 @@ def special_shard(acc, role):
                 w0, n0 = len(w.written), ep._session.next_num_out
                 r2 = b.w.call(ep.send_msg(msg))
                 case = {"resend_object": gtag, "depth": depth, "role": role}
-                frames = [x for _, x in w.written[w0:]]
+                frames = reassemble([x for _, x in w.written[w0:]])
                 for fr in frames:
                     why = ref_check_frame(fr)
                     if why:
@@ -236,7 +236,7 @@ def special_shard(acc, role):
             n0 = ep._session.next_num_out
             r = w.call(ep.send_msg(FIXMessage(FMsg.LOGON, {98: 0, 108: 30})))
             case = {"compids": [sender, target], "role": role}
-            frames = [x for _, x in wr.written]
+            frames = reassemble([x for _, x in wr.written])
             for fr in frames:
                 why = ref_check_frame(fr)
                 if why:
